@@ -827,20 +827,265 @@ static void run_hs(int index, const std::string* rp = 0, std::string* rerr = 0) 
     }
 }
 
+
+// ================================================================== part 3: histories on ONE decrypter object
+// The decrypters are stateful (registered keys, WEPDecrypter's scratch key buffer, learned networks): explicit-state BFS to
+// fixpoint over the operations of one object x a last-write model of what is registered.  After every operation every frame of
+// the family (each BSSID / station pair x each key it could be protected with x ToDS / FromDS) is presented: a frame decrypts to
+// its plaintext IFF the key currently registered for its BSSID / pair is the one it was encrypted with.
+static Bytes protected_data_frame(int cipher, bool qos, bool to_ds, const uint8_t* sta, const uint8_t* bssid, const uint8_t* peer,
+                                  const Bytes& key_or_ptk, uint64_t pn, const Bytes& plain) {
+    Roles r;
+    r.a1 = to_ds ? bssid : sta; r.a2 = to_ds ? sta : bssid; r.a3 = peer; r.a4 = 0;
+    r.da = to_ds ? r.a3 : r.a1; r.sa = to_ds ? r.a2 : r.a3;
+    Bytes hdr = mac_header(to_ds ? 1 : 2, qos ? 4 : -1, 0, r, uint16_t(0x300 + pn), 0, true);
+    Bytes body;
+    if (cipher == CCMP) body = c09::ccmp_encrypt(&key_or_ptk[32], hdr, pn, 0, plain);
+    else if (cipher == TKIP) body = c09::tkip_encrypt(&key_or_ptk[32], &key_or_ptk[to_ds ? 56 : 48], r.a2, r.da, r.sa, qos ? 4 : 0, pn, 0, plain);
+    else { uint8_t iv[3] = {uint8_t(pn >> 16), uint8_t(pn >> 8), uint8_t(pn)}; body = c09::wep_encrypt(key_or_ptk, iv, int(pn & 3), plain); }
+    hdr.insert(hdr.end(), body.begin(), body.end());
+    return hdr;
+}
+// judge one presented frame; `want` = the model says the matching key is the registered one
+static std::string judge_presented(const Out& o, bool want, const Bytes& plain, const std::string& site, const std::string& what) {
+    if (o.ret == 3) return "harness:frame-did-not-parse|" + what;
+    if (want) {
+        if (o.ret != 1) return site + ":frame-under-registered-key-not-decrypted|" + what + " ret=" + str(o.ret) + " " + o.exc;
+        if (o.prot || !o.snap || o.rec != plain) return site + ":decrypted-output-differs-from-plaintext|" + what;
+        return "";
+    }
+    if (o.ret == 1) return site + ":decrypted-without-the-matching-key-registered|" + what;
+    if (!o.prot) return site + ":not-decrypted-but-protected-flag-cleared|" + what;
+    return "";
+}
+static uint64_t n_obj_presented = 0, n_obj_decrypted = 0;
+
+// ---------------------------------------------------------------- WEPDecrypter
+struct WepWorld {
+    uint8_t bssid[2][6], sta[6], peer[6];
+    Bytes key[3];                       // 5 octets, 13 octets, another 13 octets
+    Bytes plain[2];
+    Bytes frame[2][3][2];               // [bssid][key][0 = ToDS, 1 = FromDS]
+    int event_form;                     // DS form of the decrypt EVENTS of this configuration
+    std::vector<std::string> names;
+};
+static WepWorld* WW = 0;
+struct WepS { Crypto::WEPDecrypter d; int reg[2]; std::string obs; };
+static WepWorld* make_wep_world(int cfg) {
+    WepWorld* w = new WepWorld();
+    const uint8_t b0[6] = {0x00, 0x1a, 0x2b, 0x3c, 0x4d, 0x5e}, b1[6] = {0xf2, 0x1a, 0x2b, 0x3c, 0x4d, 0x5f};
+    const uint8_t sta[6] = {0x00, 0x0c, 0xf1, 0x11, 0x22, 0x33}, peer[6] = {0x00, 0x21, 0x6a, 0xaa, 0xbb, 0xcc};
+    memcpy(w->bssid[0], cfg & 2 ? b1 : b0, 6); memcpy(w->bssid[1], cfg & 2 ? b0 : b1, 6);
+    memcpy(w->sta, sta, 6); memcpy(w->peer, peer, 6);
+    uint32_t s = 0x3E9u;
+    for (int i = 0; i < 5; ++i) w->key[0].push_back((uint8_t)lcg(s));
+    for (int i = 0; i < 13; ++i) w->key[1].push_back((uint8_t)lcg(s));
+    for (int i = 0; i < 13; ++i) w->key[2].push_back((uint8_t)lcg(s));
+    w->event_form = cfg & 1;
+    for (int b = 0; b < 2; ++b) {
+        w->plain[b] = plaintext(24 + 9 * b, b);
+        for (int k = 0; k < 3; ++k) for (int f = 0; f < 2; ++f)
+            w->frame[b][k][f] = protected_data_frame(WEP40, false, f == 0, w->sta, w->bssid[b], w->peer, w->key[k], 0x010203 + 0x111 * (b * 6 + k * 2 + f), w->plain[b]);
+    }
+    const char* kn[3] = {"k5", "k13", "k13x"};
+    for (int b = 0; b < 2; ++b) for (int k = 0; k < 3; ++k) w->names.push_back(std::string("add") + str(b) + kn[k]);
+    for (int b = 0; b < 2; ++b) w->names.push_back("remove" + str(b));
+    for (int b = 0; b < 2; ++b) for (int k = 0; k < 3; ++k) w->names.push_back(std::string("decrypt") + str(b) + kn[k]);
+    return w;
+}
+static std::string wep_step(WepS& s, const int& op) {
+    WepWorld& w = *WW;
+    auto what = [&](int b, int k, int f) { return "frame for bssid " + str(b) + " under key " + str(k) + (f ? " FromDS" : " ToDS") + ", registered " + str(s.reg[b]); };
+    if (op < 6) { int b = op / 3, k = op % 3; s.d.add_password(hw(w.bssid[b]), std::string(w.key[k].begin(), w.key[k].end())); s.reg[b] = k; }
+    else if (op < 8) { int b = op - 6; s.d.remove_password(hw(w.bssid[b])); s.reg[b] = -1; }
+    else {
+        int b = (op - 8) / 3, k = (op - 8) % 3, f = w.event_form;
+        Out o = run_decrypt(s.d, w.frame[b][k][f]);
+        ++n_obj_presented; if (o.ret == 1) ++n_obj_decrypted;
+        std::string e = judge_presented(o, s.reg[b] == k, w.plain[b], "objhist:wep", what(b, k, f));
+        if (!e.empty()) return e;
+    }
+    // every frame of the family on a copy of the object, one after the other (the copy's scratch buffer evolves along the way)
+    Crypto::WEPDecrypter c(s.d);
+    std::string obs;
+    for (int b = 0; b < 2; ++b) for (int k = 0; k < 3; ++k) for (int f = 0; f < 2; ++f) {
+        Out o = run_decrypt(c, w.frame[b][k][f]);
+        ++n_obj_presented; if (o.ret == 1) ++n_obj_decrypted;
+        obs += char('0' + o.ret);
+        std::string e = judge_presented(o, s.reg[b] == k, w.plain[b], "objhist:wep", what(b, k, f));
+        if (!e.empty()) return e;
+    }
+    s.obs = obs;
+    return "";
+}
+static std::string wep_canon(const WepS& s) {
+    std::string o = "P";
+    for (auto& kv : s.d.passwords_) { put_addr(o, kv.first); o += '='; o += hex((const uint8_t*)kv.second.data(), kv.second.size()); o += ';'; }
+    o += "B" + hex(s.d.key_buffer_) + "|";
+    for (int b = 0; b < 2; ++b) o += char('1' + s.reg[b]);
+    return o;
+}
+
+// ---------------------------------------------------------------- WPA2Decrypter with directly supplied keys, two networks, handshakes
+struct PairWorld { uint8_t sta[6], bssid[6]; std::string ssid, psk; Bytes ptk[4]; bool ccmp[4]; Bytes plain; std::vector<Bytes> handshake; Bytes beacon; };
+struct ObjWorld {
+    PairWorld p[2]; uint8_t peer[6]; bool qos;
+    Bytes frame[2][4][2];               // [pair][key set: 0 CCMP, 1 TKIP, 2 CCMP (another), 3 the handshake's][ToDS / FromDS]
+    std::vector<std::string> names;
+};
+static ObjWorld* OW = 0;
+struct ObjS { Crypto::WPA2Decrypter d; int key[2]; bool ap_reg[2], ap_known[2]; std::string obs, ck; };
+static ObjWorld* make_obj_world(int cfg) {
+    ObjWorld* w = new ObjWorld();
+    w->qos = (cfg & 1) != 0;
+    const uint8_t peer[6] = {0x00, 0x21, 0x6a, 0xaa, 0xbb, 0xcc};
+    memcpy(w->peer, peer, 6);
+    const uint8_t sta[2][6] = {{0x00, 0x0d, 0x93, 0x82, 0x36, 0x3a}, {0xf4, 0xec, 0x38, 0xfe, 0x4d, 0x81}};
+    const uint8_t ap[2][6] = {{0x00, 0x14, 0x6c, 0x7e, 0x40, 0x80}, {0x00, 0x14, 0x6c, 0x7e, 0x40, 0x90}};
+    const uint8_t snap_eapol[8] = {0xaa, 0xaa, 0x03, 0x00, 0x00, 0x00, 0x88, 0x8e};
+    uint32_t s = 0x0B7u + (uint32_t)cfg;
+    for (int i = 0; i < 2; ++i) {
+        PairWorld& p = w->p[i];
+        int o = (cfg & 2) ? 1 - i : i;        // which station talks to which AP swaps with the configuration (address order)
+        memcpy(p.sta, sta[o], 6); memcpy(p.bssid, ap[i], 6);
+        p.ssid = i ? "verif-C09-two" : "verif-C09-one";
+        p.psk = i ? "another passphrase, longer" : "first passphrase";
+        p.plain = plaintext(20 + 13 * i, i);
+        for (int j = 0; j < 3; ++j) { p.ptk[j].resize(80); for (auto& x : p.ptk[j]) x = (uint8_t)lcg(s); p.ccmp[j] = j != 1; }
+        // the handshake of this pair: pair 0 CCMP, pair 1 TKIP
+        p.ccmp[3] = i == 0;
+        uint8_t an[32], sn[32];
+        for (int k = 0; k < 32; ++k) { an[k] = (uint8_t)lcg(s); sn[k] = (uint8_t)lcg(s); }
+        Bytes pmk_i = c09::pbkdf2_sha1(p.psk, p.ssid, 4096, 32);
+        p.ptk[3] = c09::ptk512(pmk_i, p.bssid, p.sta, an, sn);
+        p.ptk[3].resize(80, 0);
+        int ver = p.ccmp[3] ? 2 : 1; uint16_t keylen = p.ccmp[3] ? 16 : 32;
+        Bytes kd; for (int k = 0; k < 24; ++k) kd.push_back((uint8_t)lcg(s));
+        Bytes m[4];
+        m[0] = eapol_key(ver, uint16_t(0x0088 | ver), keylen, 1, an, Bytes(), 0);
+        m[1] = eapol_key(ver, uint16_t(0x0108 | ver), keylen, 1, sn, kd, &p.ptk[3][0]);
+        m[2] = eapol_key(ver, uint16_t(0x13c8 | ver), keylen, 2, an, kd, &p.ptk[3][0]);
+        m[3] = eapol_key(ver, uint16_t(0x0308 | ver), keylen, 2, 0, Bytes(), &p.ptk[3][0]);
+        for (int k = 0; k < 4; ++k) {
+            Bytes pl(snap_eapol, snap_eapol + 8);
+            pl.insert(pl.end(), m[k].begin(), m[k].end());
+            bool to_ds = k == 1 || k == 3;
+            p.handshake.push_back(data_frame(to_ds ? p.bssid : p.sta, to_ds ? p.sta : p.bssid, p.bssid, to_ds, w->qos, pl, false));
+        }
+        p.beacon = beacon_frame(p.bssid, p.ssid.c_str(), true);
+        for (int j = 0; j < 4; ++j) for (int f = 0; f < 2; ++f)
+            w->frame[i][j][f] = protected_data_frame(p.ccmp[j] ? CCMP : TKIP, w->qos, f == 0, p.sta, p.bssid, w->peer, p.ptk[j], 0x40 + i * 8 + j * 2 + f, p.plain);
+    }
+    const char* kn[3] = {"ccmp", "tkip", "ccmpx"};
+    for (int i = 0; i < 2; ++i) for (int j = 0; j < 3; ++j) w->names.push_back(std::string("keys") + str(i) + kn[j]);
+    w->names.push_back("apdata0");       // add_ap_data(psk, ssid): the BSSID is learned from a beacon
+    w->names.push_back("apdata1bssid");  // add_ap_data(psk, ssid, bssid)
+    w->names.push_back("beacon0"); w->names.push_back("beacon1");
+    w->names.push_back("handshake0"); w->names.push_back("handshake1");
+    return w;
+}
+static std::string obj_step(ObjS& s, const int& op) {
+    ObjWorld& w = *OW;
+    typedef Crypto::WPA2Decrypter::addr_pair AP;
+    auto feed = [&](const Bytes& f) -> std::string {
+        Out o = run_decrypt(s.d, f);
+        if (o.ret == 3) return "harness:event-frame-did-not-parse|";
+        if (o.ret != 0) return "objhist:wpa2:unprotected-frame-reported-decrypted-or-exception|ret=" + str(o.ret) + " " + o.exc;
+        return "";
+    };
+    std::string e;
+    if (op < 6) {
+        int i = op / 3, j = op % 3;
+        // the documented order does not matter: alternate it
+        AP pr = j == 1 ? AP(hw(w.p[i].bssid), hw(w.p[i].sta)) : AP(hw(w.p[i].sta), hw(w.p[i].bssid));
+        s.d.add_decryption_keys(pr, Crypto::WPA2::SessionKeys(w.p[i].ptk[j], w.p[i].ccmp[j]));
+        s.key[i] = j;
+    } else if (op == 6) { s.d.add_ap_data(w.p[0].psk, w.p[0].ssid); s.ap_reg[0] = true; }
+    else if (op == 7) { s.d.add_ap_data(w.p[1].psk, w.p[1].ssid, hw(w.p[1].bssid)); s.ap_reg[1] = s.ap_known[1] = true; }
+    else if (op == 8 || op == 9) { int i = op - 8; e = feed(w.p[i].beacon); if (s.ap_reg[i]) s.ap_known[i] = true; }
+    else {
+        int i = op - 10;
+        for (size_t k = 0; k < 4 && e.empty(); ++k) e = feed(w.p[i].handshake[k]);
+        if (s.ap_known[i]) s.key[i] = 3;           // a complete valid handshake of a known network: its keys are the pair's keys now
+    }
+    if (!e.empty()) return e;
+    s.ck = canon_impl(s.d);
+    std::string obs;
+    for (int i = 0; i < 2; ++i) for (int j = 0; j < 4; ++j) for (int f = 0; f < 2; ++f) {
+        Out o = run_decrypt(s.d, w.frame[i][j][f]);
+        ++n_obj_presented; if (o.ret == 1) ++n_obj_decrypted;
+        obs += char('0' + o.ret);
+        e = judge_presented(o, s.key[i] == j, w.p[i].plain, "objhist:wpa2",
+                            "frame of pair " + str(i) + " under key set " + str(j) + (f ? " FromDS" : " ToDS") + ", registered " + str(s.key[i]));
+        if (!e.empty()) return e;
+    }
+    s.obs = obs;
+    return "";
+}
+static std::string obj_canon(const ObjS& s) {
+    std::string o = s.ck.empty() ? canon_impl(s.d) : s.ck;
+    o += '|';
+    for (int i = 0; i < 2; ++i) { o += char('1' + s.key[i]); o += s.ap_reg[i] ? 'R' : '-'; o += s.ap_known[i] ? 'K' : '-'; }
+    return o;
+}
+
+static const int NOBJ = 8;     // configurations 0..3 WEP (event DS form x BSSID order), 4..7 WPA2 (Data/QoS x station order)
+static void run_obj(int index, const std::string* rp = 0, std::string* rerr = 0) {
+    if (index < 0 || index >= NOBJ) return;
+    n_obj_presented = n_obj_decrypted = 0;
+    bool ok = false;
+    if (index < 4) {
+        delete WW; WW = make_wep_world(index);
+        Explorer<WepS, int> ex;
+        for (size_t i = 0; i < WW->names.size(); ++i) ex.alphabet.push_back((int)i);
+        ex.context = "mode=obj tier=" + A.tier + " cfg=" + str(index);
+        ex.op_str = [](const int& e) { return WW->names[e]; };
+        ex.init = []() { WepS s; s.reg[0] = s.reg[1] = -1; return s; };
+        ex.canon = wep_canon;
+        ex.step = wep_step;
+        ex.nontrivial = [](const WepS& s) { return s.reg[0] >= 0 || s.reg[1] >= 0; };
+        ex.observe = [](const WepS& s) { return s.obs; };
+        if (rp) { *rerr = ex.replay(*rp); return; }
+        ok = ex.run();
+    } else {
+        delete OW; OW = make_obj_world(index - 4);
+        Explorer<ObjS, int> ex;
+        for (size_t i = 0; i < OW->names.size(); ++i) ex.alphabet.push_back((int)i);
+        ex.context = "mode=obj tier=" + A.tier + " cfg=" + str(index);
+        ex.op_str = [](const int& e) { return OW->names[e]; };
+        ex.init = []() { ObjS s; s.key[0] = s.key[1] = -1; s.ap_reg[0] = s.ap_reg[1] = s.ap_known[0] = s.ap_known[1] = false; return s; };
+        ex.canon = obj_canon;
+        ex.step = obj_step;
+        ex.nontrivial = [](const ObjS& s) { return s.key[0] >= 0 || s.key[1] >= 0; };
+        ex.observe = [](const ObjS& s) { return s.obs; };
+        if (rp) { *rerr = ex.replay(*rp); return; }
+        ok = ex.run();
+    }
+    R.count("object_history_configurations");
+    if (ok && !R.flags.count("depth_bounded")) R.count("object_history_configurations_to_fixpoint");
+    R.count("object_history_frames_presented", n_obj_presented);
+    R.count("object_history_frames_decrypted", n_obj_decrypted);
+    if (index == 0) { std::string al; for (auto& n : WW->names) al += n + " "; R.info["wep_object_alphabet"] = jstr(al); }
+    if (index == 4) { std::string al; for (auto& n : OW->names) al += n + " "; R.info["wpa2_object_alphabet"] = jstr(al); }
+}
+
 int main(int argc, char** argv) {
     std::string st = c09::selftest();
     if (!st.empty()) { fprintf(stderr, "reference self-test failed: %s\n", st.c_str()); return 2; }
-    return run_main(argc, argv, NF + 16, NF + 32,
+    return run_main(argc, argv, NF + 16 + NOBJ, NF + 32 + NOBJ,
         [](int job) {
+            int nh = A.thorough() ? 32 : 16;
             if (job < NF) run_frames_job(job);
-            else run_hs(job - NF);
+            else if (job < NF + nh) run_hs(job - NF);
+            else run_obj(job - NF - nh);
         },
         [](const std::string& kase) -> int {
             auto kv = parse_kv(kase);
             if (kv.count("tier")) A.tier = kv["tier"];
-            if (kv["mode"] == "hs") {
+            if (kv["mode"] == "hs" || kv["mode"] == "obj") {
                 std::string err, ops = kv["ops"];
-                run_hs(atoi(kv["cfg"].c_str()), &ops, &err);
+                if (kv["mode"] == "hs") run_hs(atoi(kv["cfg"].c_str()), &ops, &err);
+                else run_obj(atoi(kv["cfg"].c_str()), &ops, &err);
                 if (!err.empty()) { printf("violation reproduced: %s\n", err.c_str()); return 1; }
                 printf("history replayed, all invariants hold\n");
                 return 0;
